@@ -37,6 +37,10 @@ CHECKS = {
             "at the end exactly one child per completed conditional was released, untaken branches up to the matching join are CANCELLED and never started, everything else completed exactly once.", "3/C07"),
  "C08": sim("Every feasible path of whole runs that finish, miss deadlines (symbolic deadlines incl. ties), cancel and time out; the CSV logger is replaced by a row-capturing logger whose symbolic cells are tokens mapped back to z3 terms; "
             "z3 compares every SIMULATOR_END counter and every TASK_* / SCHEDULER_* cell with what the monitor observed, then the real CSVReader.parse_events runs on the same rows and its reconstruction is compared with the run.", "3/C08"),
+ "C19": dict(level="model_checking", design="3/C19",
+   text="The real WorkloadLoader / WorkerLoader constructors run on description trees whose integers are solver variables (only file opening and json/yaml parsing are stubbed); every job, edge, per-node field, strategy, resource key and release-policy parameter is compared by z3 with the description; "
+        "the real release-time generation (all five policies), task-graph instantiation, closed-loop re-release and deadline fuzzing run symbolically and are compared with their definitions (deadline enclosure with +-1 rounding slack).",
+   technique="symbolic execution of the real loaders and release policies (own z3-backed path explorer) over symbolic description integers"),
  "C10": dict(level="model_checking", design="3/C10", engine="pysym+mip2smt", note=PYSYM_NOTE + " Planner part: gurobipy.Model subclass / docplex / z3.Optimize capture inside the real schedule(); translation of linear, bilinear, indicator and AND constraints to z3 (anything else aborts); read-back relation validated on every instance against the real get_placements().",
    text="Greedy policies: every feasible path of the real EDF/FIFO/LSF schedule() on API-built mixed states (released + running + scheduled-for-later tasks, heterogeneous pools, symbolic numerics): one decision per offered task, existing pool, own strategy, time >= now/release, first-fit replay within capacity, live state untouched. "
         "Planners (ILP, TetriSched-Gurobi/CPLEX, Z3): schedule() must return; over ALL solutions of the captured model z3 proves start >= now/release and no worker over capacity at any start instant; returned plan re-checked concretely.",
